@@ -76,7 +76,9 @@ def check(run):
                      "`x L y R z` unspecified, but it may not depend on the operands' shape: for every ordered pair of such operators the tree of the base sentence and of the three variants "
                      "(one operand replaced by a chain of the next tighter operator, or parenthesised) are recorded from the real parser and judged by TLC (TraceShape: variant = base with the operand substituted)")
     pf.shape_independence(run, "c08-mix", "C08", OPS_FILE)
-    pf.model_and_replay(run, "user-pairs", pf.pratt_cfg("c08-upairs", lazy=False, source="UPairSource", firstset="UPairSet", table="BigTable"), "C08", "C08", ops_file=OPS_FILE)
+    # registration history: every user operator is FIRST registered at the same precedence with the opposite associativity, every sentence is parsed once, then the table under test is registered
+    pf.model_and_replay(run, "user-pairs", pf.pratt_cfg("c08-upairs", lazy=False, source="UPairSource", firstset="UPairSet", table="BigTable"), "C08", "C08", ops_file=OPS_FILE,
+                        pre_ops_file=os.path.join(tlc.SPEC, "mc", "bigtable-flip.json"))
     pf.trace_validate(run, "user-ops", 6000 if thorough else 800, run.seed, 0, "C08", "C08", ops_file=OPS_FILE, table="BigTable")
     run.rules.append("Context API (spec/ContextApi.tla): operation histories on real Contexts in both directions (see C06); here the mismatches whose name was last written as a function "
                      "entry (set_func, create_context! with a closure) or whose failing operation is a call / get_func")
